@@ -346,6 +346,11 @@ func createWriterWithCtx(obs kanzi.OutputBitStream, ctx map[string]any) (*Writer
 			return nil, err
 		}
 
+		if this.inputSize < 0 {
+			// The size is only a hint: a negative value means unknown
+			this.inputSize = 0
+		}
+
 		nbBlocks = int((this.inputSize + int64(bSize-1)) / int64(bSize))
 	}
 
